@@ -59,7 +59,12 @@ class Gen:
             elif k < 8:
                 i = self.fresh('i')
                 n = rng.range(0, 4)
-                start = F(rng.range(-8, 8), rng.choice([1, 1, 2, 4])); step = F(rng.range(-6, 6), rng.choice([1, 1, 2])) or F(1)
+                start = F(rng.range(-8, 8), rng.choice([1, 1, 2, 4, 16, 64])); step = F(rng.range(-6, 6), rng.choice([1, 1, 2, 32, 16])) or F(1)      # dyadic (exact in binary, no accumulation drift: K15), up to 6 decimals
+                kv = [x for x in vars_ if x[0] == 'k']
+                if kv and rng.chance(0.3):
+                    # the number of passes given through a variable the body may update: it is read once, on entry
+                    out.append(('loopvar', rng.choice(kv), i, start, step, self.body(depth - 1, vars_ + [i])))
+                    continue
                 out.append(('loop', n, i, start, step, self.body(depth - 1, vars_ + [i])))
                 if n > 0 and rng.chance(0.4):      # after the loop the variable keeps the value of the last pass
                     out.append(('shape', 'rect', [('xy', '^|h 1'), ('wh', '2'), ('text', 'after:$%s' % i)]))
@@ -111,6 +116,9 @@ def render(ast):
         elif t == 'loop':
             _, cnt, i, start, step, body = n
             out.append('<loop count="%d" loop-var="%s" start="%s" step="%s">%s</loop>' % (cnt, i, fnum(start), fnum(step), render(body)))
+        elif t == 'loopvar':
+            _, kvar, i, start, step, body = n
+            out.append('<loop count="$%s" loop-var="%s" start="%s" step="%s">%s</loop>' % (kvar, i, fnum(start), fnum(step), render(body)))
         elif t in ('while', 'until'):
             _, j, cnt, body = n
             if t == 'while':
@@ -158,6 +166,14 @@ def unroll(ast, env):
         elif t == 'loop':
             _, cnt, i, start, step, body = n
             for k in range(cnt):
+                v = start + k * step
+                env[i] = v
+                out.append('<var %s="%s"/>' % (i, fnum(v)))
+                out.append(unroll(body, env))
+        elif t == 'loopvar':
+            _, kvar, i, start, step, body = n
+            cnt = int(env.get(kvar, F(0)))
+            for k in range(max(cnt, 0)):
                 v = start + k * step
                 env[i] = v
                 out.append('<var %s="%s"/>' % (i, fnum(v)))
@@ -222,7 +238,7 @@ def stream(out):
 
 
 def count_passes(ast):
-    return sum(1 for n in ast if n[0] in ('loop', 'while', 'until', 'for', 'if', 'forstr', 'iffwd'))
+    return sum(1 for n in ast if n[0] in ('loop', 'loopvar', 'while', 'until', 'for', 'if', 'forstr', 'iffwd'))
 
 
 def run(ctx):
